@@ -223,6 +223,13 @@ def get_template(
                     template=template_str, message=str(error)
                 )
             ) from error
+        except UnicodeError as error:
+            # Jinja reads templates as UTF-8.
+            raise click.UsageError(
+                _("Template '{template}' could not be parsed: {message}").format(
+                    template=template_str, message=str(error)
+                )
+            ) from error
 
         if ".commented" in Path(cast(str, template.name)).suffixes:
             commented = True
